@@ -187,7 +187,7 @@ async def ns_step(hp, w, rnd, ss, pool):
     must leave LIST/LSUB output and the directory tree unchanged."""
     existing = [n for n in w.boxes if n not in SPECIAL]
     live = [n for n in existing if not w.boxes[n].noselect]
-    op = rnd.choice(["create", "create", "create", "delete", "delete", "rename", "rename", "subscribe", "unsubscribe", "bad", "append", "restart"])
+    op = rnd.choice(["create", "create", "create", "delete", "delete", "rename", "rename", "subscribe", "unsubscribe", "bad", "append", "restart", "special"])
     before_tree = disk_tree(str(w.rig.maildir), msgs=True)
     r = None
     if op == "create":
@@ -223,8 +223,30 @@ async def ns_step(hp, w, rnd, ss, pool):
                 await w.op_select(ss, "INBOX")
             if ss.nview():
                 await w.op_copy(ss, [1], rnd.choice(placeholders))
+    elif op == "special":
+        # the mailboxes the server creates by itself when they are missing (SPECIAL-USE names): deleted while they have an
+        # inferior they stay as placeholders -- which a restart must not bring back to life --, deleted as leaves they are gone
+        # until the next start creates them afresh
+        sp = rnd.choice(sorted(SPECIAL))
+        b = w.boxes.get(sp)
+        if b is not None and not b.noselect and rnd.random() < 0.6:
+            if not w.has_inferiors(sp):
+                await w.op_create(ss, sp + "/" + rnd.choice(["sub", "x y", "2024"]))
+            r = await w.op_delete(ss, sp)
+            w.stats["special_use_deleted_with_inferior"] += 1
+        elif b is not None and not b.noselect and not b.subscribed:
+            r = await w.op_delete(ss, sp)
+            w.stats["special_use_leaf_deleted"] += 1
+        elif b is None or b.noselect:
+            r = await w.op_create(ss, sp)
     elif op == "restart":
         await w.restart()
+        from ..history import MBox
+
+        for sp in sorted(SPECIAL):
+            if sp not in w.boxes:
+                w.boxes[sp] = MBox(sp)  # created afresh by the starting server
+                w.stats["special_use_recreated_at_start"] += 1
         ss = w.session()
     elif op == "bad":
         txt = rnd.choice(["CREATE INBOX", "DELETE INBOX", 'DELETE "INBOX"', "DELETE InBoX", "RENAME nosuch other", "DELETE nosuch", "CREATE 123", 'CREATE ""', 'RENAME a ""', "CREATE a/", "RENAME INBOX INBOX"])
